@@ -13,7 +13,9 @@ import multiprocessing.queues
 import multiprocessing.synchronize
 import multiprocessing.util
 import os
+import queue
 import sys
+import threading
 import time
 import traceback
 
@@ -22,9 +24,6 @@ from ..threading import Thread
 from .remote_exception import RemoteException
 
 logger = logging.getLogger(__name__)
-
-
-_LOGGER_QUEUE_WARMUP = 'mpservice-logger-queue-warmup'
 
 
 class SpawnProcess(multiprocessing.context.SpawnProcess):
@@ -163,18 +162,14 @@ class SpawnProcess(multiprocessing.context.SpawnProcess):
 
         self._future_ = concurrent.futures.Future()
 
+        self._child_ended_ = threading.Event()
         self._logger_thread_ = Thread(
             target=self._run_logger,
-            args=(self._logger_queue_,),
+            args=(self._logger_queue_, self._child_ended_),
             name=f'{self.name}-LoggerThread',
             daemon=getattr(self, 'daemon', None),
         )
         self._logger_thread_.start()
-        # The first `put` on a multiprocessing queue starts the queue's feeder thread,
-        # and threads can not be started while the interpreter is shutting down.
-        # The end marker for the logger thread may be due just then (a process that is
-        # still running when the main thread ends), hence make the first `put` now.
-        self._logger_queue_.put(_LOGGER_QUEUE_WARMUP)
 
         self._result_collector_thread_ = Thread(
             target=self._collect_result,
@@ -195,16 +190,26 @@ class SpawnProcess(multiprocessing.context.SpawnProcess):
         self._finalizer_ = multiprocessing.util.Finalize(
             self,
             type(self)._finalize,
-            args=(self._logger_thread_, self._logger_queue_),
+            args=(self._logger_thread_, self._child_ended_),
         )
 
     @staticmethod
-    def _run_logger(q: multiprocessing.queues.Queue):
+    def _run_logger(q: multiprocessing.queues.Queue, child_ended: threading.Event):
+        # This thread ends by itself once the child has exited and its records have
+        # been handled. It is not ended by a marker that this process puts in `q`: a `put`
+        # starts the queue's feeder thread, which can not be done while the interpreter
+        # is shutting down, and which makes this process close the queue when it exits,
+        # before it has joined its children that are still logging.
         while True:
-            record = q.get()
-            if record is None:
-                break
-            if record == _LOGGER_QUEUE_WARMUP:
+            ended = child_ended.is_set()
+            # Read the flag before looking at the queue.
+            try:
+                record = q.get(timeout=0.1)
+            except queue.Empty:
+                if ended:
+                    # The child flushed its log queue before it exited,
+                    # hence there is nothing more to come.
+                    break
                 continue
             logger = logging.getLogger(record.name)
             if record.levelno >= logger.getEffectiveLevel():
@@ -259,14 +264,14 @@ class SpawnProcess(multiprocessing.context.SpawnProcess):
         # Wait on the sentinel rather than polling `exitcode`, so as not to reap
         # the child under a concurrent `join`.
         multiprocessing.connection.wait([sentinel])
-        self._logger_queue_.put(None)
+        self._child_ended_.set()
         self._logger_thread_.join()
         # Now every record of the child has been handled, and the finalizer
         # (which may run during garbage collection) has no thread left to wait for.
 
     @staticmethod
-    def _finalize(logger_thread, q):
-        q.put(None)
+    def _finalize(logger_thread, child_ended):
+        child_ended.set()
         logger_thread.join()
 
     @staticmethod
